@@ -176,6 +176,10 @@ def g_routing(R, tier):
     case("Expr", "PendingExpr", lambda: ast.Expr(value=CL.src("value")))
     case("Assign", "PendingAssign", lambda: ast.Assign(targets=[ast.Name(id="t", ctx=ast.Store())], value=CL.src("value")))
     case("AnnAssign", "PendingAssign", lambda: ast.AnnAssign(target=ast.Name(id="t", ctx=ast.Store()), annotation=CL.src("annotation"), value=CL.src("value"), simple=1))
+    # annotated assignments whose target is not a bare name (`node.simple == 0`): the value is stored all the same
+    case("AnnAssign:attribute-target", "PendingAssign", lambda: ast.AnnAssign(target=ast.Attribute(value=CL.src("obj"), attr="a", ctx=ast.Store()), annotation=CL.src("annotation"),
+                                                                                value=CL.src("value"), simple=0))
+    case("AnnAssign:parenthesised-name", "PendingAssign", lambda: ast.AnnAssign(target=ast.Name(id="t", ctx=ast.Store()), annotation=CL.src("annotation"), value=CL.src("value"), simple=0))
     case("AugAssign", "PendingAugAssign", lambda: ast.AugAssign(target=ast.Name(id="t", ctx=ast.Store()), op=ast.Add(), value=CL.src("value")))
     case("Return", "PendingReturn", lambda: ast.Return(value=CL.src("value"), lineno=1, col_offset=0))
     case("If", "PendingIf", lambda: ast.If(test=CL.src("test"), body=[], orelse=[]),
@@ -207,13 +211,13 @@ def g_routing(R, tier):
             self_ = CL.mk_pending(getattr(pn, cls_name), node, nsp, CL.mk_global(), m=m)
             extra(self_)
             res = m.call_value(getattr(pn, cls_name).get_result, self_)
-            also = {"FunctionDef": ["arg_annotation", "default"], "ClassDef": ["keyword_value"]}.get(name, [])
+            also = {"FunctionDef": ["arg_annotation", "default"], "ClassDef": ["keyword_value"], "AnnAssign:attribute-target": ["obj"]}.get(name, [])
             return dict(res=res, node=node, also=also)
         paths = explore(run)
         nm = f"pending_nodes.{cls_name}[{name}]"
         if not paths_or_undecided(R, nm + "/routing/paths", paths):
             continue
-        cls = getattr(ast, name)
+        cls = getattr(ast, name.split(":")[0])
         for p in paths:
             if p.kind != "ok":
                 R.fail(f"{nm}/routing/no-unexpected-raise", repr(p.value))
@@ -225,6 +229,8 @@ def g_routing(R, tier):
                 for fname, q in expr_fields(cls) + [(f, "") for f in p.value.get("also", [])]:
                     if fname in ("target", "targets") and name != "For":
                         continue  # assignment targets: C13
+                    if ":" in name and fname == "annotation":
+                        continue  # (the dropped annotation is the finding of the base case)
                     if fname in transformed:
                         R.ok(f"{nm}/routing/{fname}-goes-through-the-expression-transformer", "structural", "unsupported expression kinds inside it are rejected there")
                     elif fname in raw:
@@ -300,6 +306,9 @@ def replay_field(rp):
     from suites import replay_util as RU
     progs = {
         ("AnnAssign", "annotation"): "log = []\ndef a():\n    log.append('ann')\n    return int\nx: a() = 1\n",
+        ("AnnAssign:attribute-target", "value"): "log = []\nclass O:\n    pass\no = O()\ndef v():\n    log.append('v')\n    return 3\no.x: int = v()\nd = {}\nd['k']: int = v()\nr = (o.x, d, log)\n",
+        ("AnnAssign:attribute-target", "obj"): "log = []\nclass O:\n    pass\no = O()\ndef g():\n    log.append('g')\n    return o\ng().x: int = 3\nr = (o.x, log)\n",
+        ("AnnAssign:parenthesised-name", "value"): "log = []\ndef v():\n    log.append('v')\n    return 3\n(x): int = v()\nr = (x, log)\n",
         ("For", "target"): "def f():\n    d = {}\n    k = 'key'\n    def g():\n        return d, k\n    for d[k] in range(2):\n        pass\n    return d\nr = f()\n",
     }
     if (rp["stmt"], rp["field"]) == ("Expr", "value"):
